@@ -42,6 +42,7 @@ def run(chk, tier):
         pattern_indices(chk, F, 'R19.5', cfg)
         from props import ctor
         ctor.reporter_storage(chk, F, 'R19.6', cfg)
+        expected_pattern_lookup(chk, F, 'R19.7', cfg)
         ctor.matcher_storage(chk, F, 'R19.4.store', cfg)
     from xpand import rules as X
     X.check_traits(chk, tier, chk.seed, {'C19'})
@@ -157,6 +158,44 @@ def display_call(chk, F, rule, cfg):
             if is_call(r, r'^MockFn::debug_inputs$') and mentions(r, lambda x: x[0] == 'field' and 'inputs' in str(x[2])):
                 okc = True
     chk.ob(rule, 'the input debugger of an evaluation is F::debug_inputs(&inputs) of the call\'s own inputs', okc, config=cfg, fn=ev, site='input_debugger', what='input debugger closure')
+
+
+def expected_pattern_lookup(chk, F, rule, cfg):
+    """"Method matched in wrong order. Expected a call matching <pattern> at file:line": the pattern named is the owner of the
+    consumed slot - found with the same slot lookup the selector uses (decided by R04.4), in any ordered method's list."""
+    fn = F.fn('state::SharedState::find_ordered_expected_call_pattern_debug')
+    own = lambda x: x[0] == 'ref' and x[1][1][-1:] == (('f', 'fn_mockers'),) and x[1][0] == ('ptr', ('param', 0, 1))  # noqa: E731
+    n = 0
+    for p in symex.Interp(F).run(fn):
+        v = p.outcome[1] if p.outcome[0] == 'return' else ('unk', '')
+        names = L.pipeline_calls(v, own)
+        ok = names is not None and all(re.search(r'(BTreeMap(<.*>)?::(values|iter)$|Iterator>?::(find_map|filter|filter_map|map|next|find)$|IntoIterator>?::into_iter$)', x) for x in names)
+        chk.ob(rule, 'the expected pattern is searched in every method\'s table', ok, config=cfg, fn=fn, site='expected:pipeline', unrecognised=(names is None), what='expected-pattern search %s' % (names,), found=names)
+        for e in p.calls(r'Iterator>?::(find_map|filter|filter_map|map|find)$'):
+            c = strip(e.data[2][1])
+            if not (c[0] == 'agg' and c[1] == 'closure'):
+                chk.ob(rule, 'closures of the expected-pattern search are literals', False, config=cfg, fn=fn, site='expected:closure', unrecognised=True, what='opaque closure')
+                continue
+            cf = F.fns[c[2]]
+            for q in symex.Interp(F).run(cf):
+                n += 1
+                lookups = list(q.calls(r'FnMocker::find_call_pattern_for_call_order$'))
+                dbg = list(q.calls(r'FnMocker::debug_pattern$'))
+                okl = all(field_path(l.data[2][0])[0] == ('param', 0, 2) and 'ordered_call_index' in show(l.data[2][1]) for l in lookups)
+                okd = True
+                for d in dbg:
+                    idx = strip(d.data[2][1])
+                    okd = okd and len(lookups) == 1 and mentions(idx, lambda x: x[0] == 'call' and x[3] == lookups[0].data[3] and x[1] == lookups[0].data[1]) and \
+                        field_path(d.data[2][0])[0] == ('param', 0, 2)
+                # every path on which the slot lookup found an owner reports it
+                found_owner = any(strip(dd.value)[0] == 'discr' and lookups and mentions(dd.value, lambda x: x[0] == 'call' and x[3] == lookups[0].data[3]) and
+                                  symex.decision_variant(F, dd) in ('Continue', 'Some') for dd in q.decisions)
+                r = strip(q.outcome[1]) if q.outcome[0] == 'return' else ('unk', '')
+                oks = (not found_owner) or (r[0] == 'agg' and r[3] == 'Some' and bool(dbg))
+                other = [x.data[1] for x in q.calls(r'binary_search|partition_point|Iterator>?::(position|find|nth|skip|rev)$')]
+                chk.ob(rule, 'the pattern named in a wrong-order error is the slot owner found by the selector\'s own lookup, in that method\'s list', okl and okd and oks and not other, config=cfg, fn=cf,
+                       site='expected:lookup', what='expected-pattern lookup: lookups=%d debug=%d other=%s' % (len(lookups), len(dbg), other), found={'lookups': len(lookups), 'debug_pattern': len(dbg), 'other_search': other})
+    chk.floor(rule, 'paths of the expected-pattern search closures', n, 3, config=cfg)
 
 
 def pattern_indices(chk, F, rule, cfg):
